@@ -96,11 +96,14 @@ func (fs *FS) notDirIfParentIsFile(name string, err error) error {
 	}
 	results, getErr := getFileRecords(fs.store, parents)
 	if getErr != nil {
-		return err
+		return getErr
 	}
 	for _, result := range results {
-		if result.Err == nil && result.Record != nil && !result.Record.Mode().IsDir() {
+		switch {
+		case result.Err == nil && result.Record != nil && !result.Record.Mode().IsDir():
 			return hackpadfs.ErrNotDir
+		case result.Err != nil && !errors.Is(result.Err, hackpadfs.ErrNotExist):
+			return result.Err
 		}
 	}
 	return err
